@@ -14,10 +14,13 @@ import (
 	"strconv"
 	"strings"
 	"sync"
+	"syscall"
 	"sync/atomic"
 	"time"
 
+	"bazil.org/fuse"
 	"github.com/superfly/litefs"
+	lfuse "github.com/superfly/litefs/fuse"
 	lhttp "github.com/superfly/litefs/http"
 	"github.com/superfly/ltx"
 )
@@ -325,6 +328,7 @@ type snapGate struct {
 type clusterNode struct {
 	bgHalt chan string // answer of a halt-lock request issued in the background
 	bgImp  chan string // answer of an import request (POST /import) issued in the background
+	haltH  map[int64]*lfuse.LockHandle // mount mode: open handles of the -lock file that hold the HALT byte, by the suite's label
 	pctx   context.Context
 	gate   *snapGate
 	hooked *litefs.DB
@@ -386,6 +390,66 @@ func (m *clusterImpl) stop(n *clusterNode) {
 	}
 }
 
+// haltViaMount: F_SETLKW of the HALT byte on the database's -lock file, as an application does it
+// through the mount (LockNode.Open, LockHandle.LockWait).
+func (n *clusterNode) haltViaMount(ctx context.Context, id int64) string {
+	pos := func() string {
+		rl := n.eng.db.RemoteHaltLock()
+		if rl == nil {
+			if n.eng.store.IsPrimary() {
+				return "err primary"
+			}
+			return "err"
+		}
+		return fmt.Sprintf("ok pos=%d:%016x", uint64(rl.Pos.TXID), uint64(rl.Pos.PostApplyChecksum))
+	}
+	if n.haltH[id] != nil {
+		// the application already holds the byte through this handle; a retried call of an
+		// interrupted request reaches the primary with the same lock id
+		rl := n.eng.db.RemoteHaltLock()
+		if rl == nil {
+			return "err"
+		}
+		hl, err := n.eng.db.AcquireRemoteHaltLock(ctx, rl.ID)
+		if err != nil {
+			if os.Getenv("VERIF_LOG") != "" {
+				fmt.Fprintln(os.Stderr, "repeated halt via mount:", err)
+			}
+			return "err"
+		}
+		return fmt.Sprintf("ok pos=%d:%016x", uint64(hl.Pos.TXID), uint64(hl.Pos.PostApplyChecksum))
+	}
+	node, err := n.eng.mount.root.Lookup(ctx, "db-lock")
+	if err != nil {
+		return "err"
+	}
+	ln, ok := node.(*lfuse.LockNode)
+	if !ok {
+		return "err"
+	}
+	hh, err := ln.Open(ctx, &fuse.OpenRequest{Flags: fuse.OpenReadWrite}, &fuse.OpenResponse{})
+	if err != nil {
+		return "err"
+	}
+	h := hh.(*lfuse.LockHandle)
+	fl := fuse.FileLock{Start: uint64(litefs.LockTypeHalt), End: uint64(litefs.LockTypeHalt), Type: fuse.LockWrite}
+	if err := h.LockWait(ctx, &fuse.LockWaitRequest{LockOwner: 1, Lock: fl}); err != nil {
+		if os.Getenv("VERIF_LOG") != "" {
+			fmt.Fprintln(os.Stderr, "halt via mount:", err)
+		}
+		return "err"
+	}
+	n.eng.c.Count("mount.halt")
+	out := pos()
+	if strings.HasPrefix(out, "ok ") {
+		if n.haltH == nil {
+			n.haltH = map[int64]*lfuse.LockHandle{}
+		}
+		n.haltH[id] = h
+	}
+	return out
+}
+
 func (m *clusterImpl) start(k int) string {
 	n := m.nodes[k]
 	if n.up {
@@ -395,6 +459,7 @@ func (m *clusterImpl) start(k int) string {
 	n.client = &netClient{inner: lhttp.NewClient(), streams: map[*netStream]struct{}{}}
 	n.eng.exit = 0
 	n.pctx = nil
+	n.haltH = nil
 	n.eng.configure = func(st *litefs.Store) error {
 		srv := lhttp.NewServer(st, "127.0.0.1:0")
 		if err := srv.Listen(); err != nil {
@@ -829,7 +894,7 @@ func (m *clusterImpl) Do(line string) string {
 		case <-time.After(4 * time.Second):
 			return "hang"
 		}
-	case "halt", "unhalt", "halt-expire", "halt-ttl": // halt <k> <id> | unhalt <k> <id> | halt-expire <p> | halt-http <p> <METHOD> <id> <own-of-node|other>
+	case "halt", "unhalt", "unhalt-intr", "halt-expire", "halt-ttl": // halt <k> <id> | unhalt <k> <id> | halt-expire <p> | halt-http <p> <METHOD> <id> <own-of-node|other>
 		if len(f) < 2 {
 			return "bad-op"
 		}
@@ -853,6 +918,11 @@ func (m *clusterImpl) Do(line string) string {
 			if err != nil {
 				return "bad-op"
 			}
+			if n.eng.mount != nil && (n.haltH[id] != nil || n.eng.db.RemoteHaltLock() == nil) {
+				// mount mode (unless the lock was taken by a background request, which uses the label as id): the application takes the HALT byte of the database's -lock file
+				// (fuse/lock_node.go); the lock id is the handle's own, `id` only labels the handle
+				return n.haltViaMount(ctx, id)
+			}
 			hl, err := n.eng.db.AcquireRemoteHaltLock(ctx, id)
 			if err != nil {
 				if errors.Is(err, litefs.ErrNoHaltPrimary) {
@@ -869,10 +939,50 @@ func (m *clusterImpl) Do(line string) string {
 			if err != nil {
 				return "bad-op"
 			}
+			if h := n.haltH[id]; h != nil && n.eng.mount != nil {
+				delete(n.haltH, id)
+				fl := fuse.FileLock{Start: uint64(litefs.LockTypeHalt), End: uint64(litefs.LockTypeHalt), Type: fuse.LockUnlock}
+				if err := h.Unlock(ctx, &fuse.UnlockRequest{LockOwner: 1, Lock: fl}); err != nil {
+					return "err"
+				}
+				n.eng.c.Count("mount.unhalt")
+				return "ok"
+			}
 			if err := n.eng.db.ReleaseRemoteHaltLock(ctx, id); err != nil {
 				return "err"
 			}
 			return "ok"
+		case "unhalt-intr": // unhalt-intr <k> <id>: the release request is interrupted (its context is cancelled, as a FUSE INTERRUPT does)
+			if len(f) != 3 || n.eng.db == nil {
+				return "bad-op"
+			}
+			id, err := strconv.ParseInt(f[2], 10, 64)
+			if err != nil {
+				return "bad-op"
+			}
+			ictx, icancel := context.WithCancel(ctx)
+			icancel()
+			if h := n.haltH[id]; h != nil && n.eng.mount != nil {
+				fl := fuse.FileLock{Start: uint64(litefs.LockTypeHalt), End: uint64(litefs.LockTypeHalt), Type: fuse.LockUnlock}
+				err = h.Unlock(ictx, &fuse.UnlockRequest{LockOwner: 1, Lock: fl})
+				n.eng.c.Count("mount.unhalt-intr")
+				switch {
+				case err == nil:
+					delete(n.haltH, id)
+					return "ok"
+				case syscall.Errno(fuse.ToErrno(err)) == syscall.EINTR:
+					return "eintr"
+				}
+				return "err"
+			}
+			err = n.eng.db.ReleaseRemoteHaltLock(ictx, id)
+			switch {
+			case err == nil:
+				return "ok"
+			case errors.Is(err, context.Canceled):
+				return "eintr"
+			}
+			return "err"
 		case "halt-ttl": // halt-ttl <p> short|long: TTL of the halt locks this node grants from now on
 			if len(f) != 3 {
 				return "bad-op"
